@@ -100,6 +100,12 @@ var shapeCatalogue = [][2]string{
 	{"ok-blob-field", "APPLICATION app1();\nWORKSPACE W (\n  TABLE t INHERITS sys.CDoc (b blob, c blob NOT NULL);\n);\n"},
 	// several Tags=(...) in one WITH clause (C17-F40): must compile; the definition is not looked at here
 	{"ok-two-tags-items", "APPLICATION app1();\nWORKSPACE W (\n  TAG A;\n  TAG B;\n  TABLE t INHERITS sys.CDoc (x int32) WITH Tags=(A), Tags=(B);\n);\n"},
+	// two more refusals that came back without a position (C16-F24)
+	{"revoke-role-from-role", "APPLICATION app1();\nWORKSPACE W (\n  ROLE r;\n  ROLE pr;\n  GRANT pr TO r;\n  REVOKE pr FROM r;\n);\n"},
+	{"grant-sys-parentid-on-doc", "APPLICATION app1();\nWORKSPACE W (\n  ROLE r;\n  TABLE t INHERITS sys.CDoc (a int32);\n  GRANT SELECT(sys.ParentID) ON TABLE t TO r;\n);\n"},
+	{"ok-grant-sys-parentid-on-record", "APPLICATION app1();\nWORKSPACE W (\n  ROLE r;\n  TABLE t INHERITS sys.CRecord (a int32);\n  GRANT SELECT(sys.ParentID, sys.Container, sys.IsActive) ON TABLE t TO r;\n);\n"},
+	// a field and a table-typed field of one name (C17-F41)
+	{"field-and-table-typed-field-share-a-name", "APPLICATION app1();\nWORKSPACE W (\n  TABLE Item INHERITS sys.CRecord (x int32);\n  TABLE Doc INHERITS sys.CDoc (items int32, items Item);\n);\n"},
 	{"empty-file", ""},
 	{"only-comment", "-- nothing here\n"},
 }
